@@ -41,6 +41,12 @@ func c14Requests() []c14Req {
 	c5.Injected = map[string][]dsl.Injected{"Alpha": {{Name: "id", Type: "github.com/hashicorp/terraform-plugin-framework/types.StringType", Computed: true}}, "Alpha.Meta": {{Name: "meta_id", Type: "github.com/hashicorp/terraform-plugin-framework/types.StringType", Computed: true}}, "Beta.Meta": {{Name: "beta_meta_id", Type: "github.com/hashicorp/terraform-plugin-framework/types.StringType", Optional: true}}}
 	c5.UseStateForUnknown = true
 	out = append(out, c14Req{"f5+options", f5.Descriptor(), c5})
+	// shapes with several embedded parents, several oneof groups and custom types (sorted)
+	for _, c := range space.F4()[2:] {
+		v := space.Variant(c, true, false, "flags")
+		v.File.Pkg, v.File.Name = "shapes", "shapes.proto"
+		out = append(out, c14Req{"shape:" + c.Tags["vt"], v.File.Descriptor(), v.Cfg})
+	}
 	min := space.F1("X")[0]
 	min.File.Pkg, min.File.Name = "minimal", "minimal.proto"
 	out = append(out, c14Req{"minimal", min.File.Descriptor(), min.Cfg})
@@ -122,7 +128,7 @@ func checkC14(r *Run) int {
 					maxc = 63
 				}
 				for c := 1; c <= maxc; c++ {
-					if r.Tier != "thorough" && len(pts) > 300 && c != 1 && c != 4 {
+					if r.Tier != "thorough" && (len(pts) > 300 || strings.HasPrefix(rq.name, "shape:")) && c != 1 && c != 4 {
 						continue // quick tier: two start positions per point for the largest request
 					}
 					execs = append(execs, mk(fmt.Sprintf("%d:%d", p.idx, c), false))
@@ -169,7 +175,7 @@ func checkC14(r *Run) int {
 		bin = overlayBin
 		fixedSched = []string{"VERIF_MAPSCHED=-"}
 	}
-	for _, rq := range reqs[:2] {
+	for _, rq := range reqs[:2] { // entry orders: the two configuration-heavy requests
 		ref := &gExec{Label: rq.name + " canonical order", FD: rq.fd, YAML: rq.cfg.YAML(nil, nil)}
 		var execs []*gExec
 		// top-level key order: all permutations of 4 chosen keys
